@@ -66,6 +66,28 @@ func init() {
 			}
 		}
 	}
+	// atomic.Value: one interface-typed field
+	stubs["(*sync/atomic.Value).Load"] = func(t *Thread, fn *ssa.Function, args []Value, pos token.Pos) Value {
+		c := atomicValueCell(t, args[0], pos)
+		st := t.e.syncOf(c)
+		t.visible(&SyncOp{kind: "atomic.load", obj: c, read: true, tpos: pos, enabled: func() bool { return true }})
+		t.acquire(&st.hb)
+		if v, ok := c.v.(Iface); ok {
+			return v
+		}
+		return Iface{}
+	}
+	stubs["(*sync/atomic.Value).Store"] = func(t *Thread, fn *ssa.Function, args []Value, pos token.Pos) Value {
+		c := atomicValueCell(t, args[0], pos)
+		st := t.e.syncOf(c)
+		t.visible(&SyncOp{kind: "atomic.store", obj: c, tpos: pos, enabled: func() bool { return true }})
+		if v, ok := args[1].(Iface); !ok || v.t == nil {
+			t.goPanicf(pos, "sync/atomic: store of nil value into Value", nil)
+		}
+		c.v = args[1]
+		t.release(&st.hb)
+		return nil
+	}
 	stubs["sync/atomic.CompareAndSwapInt32"] = stubAtomicCAS
 	stubs["sync/atomic.CompareAndSwapInt64"] = stubAtomicCAS
 	stubs["sync/atomic.LoadUint32"] = stubAtomicLoad
@@ -159,6 +181,35 @@ func init() {
 		}
 		t.goPanicf(pos, "reflect: call of reflect.Value.NumField on non-struct Value", nil)
 		return nil
+	}
+	stubs["(reflect.Value).Convert"] = func(t *Thread, fn *ssa.Function, args []Value, pos token.Pos) Value {
+		r := rv(args)
+		tt, ok := args[1].(Iface)
+		if !r.valid || !ok || tt.t == nil {
+			t.goPanicf(pos, "reflect: Convert on invalid value / nil type", nil)
+		}
+		to := tt.v.(*RType).t
+		if !types.ConvertibleTo(r.t, to) {
+			t.goPanicf(pos, "reflect.Value.Convert: value of type "+r.t.String()+" cannot be converted to type "+to.String(), nil)
+		}
+		if _, isB := to.Underlying().(*types.Basic); isB {
+			if _, isB2 := r.t.Underlying().(*types.Basic); isB2 {
+				return &RValue{valid: true, t: to, v: t.convert(r.v, r.t, to, pos)}
+			}
+		}
+		if types.Identical(r.t.Underlying(), to.Underlying()) {
+			return &RValue{valid: true, t: to, v: t.e.copyVal(r.v)}
+		}
+		t.e.unsupported("reflect.Value.Convert " + r.t.String() + " -> " + to.String())
+		return nil
+	}
+	stubs["(reflect.Value).CanConvert"] = func(t *Thread, fn *ssa.Function, args []Value, pos token.Pos) Value {
+		r := rv(args)
+		tt, ok := args[1].(Iface)
+		if !r.valid || !ok || tt.t == nil {
+			return t.e.ts.Bool(false)
+		}
+		return t.e.ts.Bool(types.ConvertibleTo(r.t, tt.v.(*RType).t))
 	}
 	stubs["reflect.DeepEqual"] = func(t *Thread, fn *ssa.Function, args []Value, pos token.Pos) Value {
 		t.e.unsupported("reflect.DeepEqual")
@@ -312,7 +363,7 @@ func stubAfterFunc(t *Thread, fn *ssa.Function, args []Value, pos token.Pos) Val
 }
 
 // purePackages: standard-library helper packages whose (generic) Go bodies are interpreted as they are.
-var purePackages = map[string]bool{"maps": true, "slices": true, "cmp": true}
+var purePackages = map[string]bool{"maps": true, "slices": true, "cmp": true, "context": true}
 
 // prefixStub matches stubs for generic receiver types (atomic.Pointer[T]).
 func prefixStub(name string) stubFn {
@@ -397,4 +448,69 @@ func indexByte(s string, b byte) int {
 		}
 	}
 	return -1
+}
+
+// ---- time.Time on the virtual clock. A Time is its real three-field struct; times made by
+// time.Now carry the monotonic flag and the virtual instant (ns) in ext, the zero Time is all zeros.
+
+const timeHasMonotonic = uint64(1) << 63
+
+func (e *Exec) mkTime(fnResult types.Type, ns *Term) Value {
+	st := e.zero(fnResult).(*Struct)
+	st.f[0].v = e.ts.BV(64, timeHasMonotonic)
+	st.f[1].v = ns
+	return st
+}
+
+func timeNS(t *Thread, v Value, pos token.Pos) *Term {
+	st, ok := v.(*Struct)
+	if !ok || len(st.f) < 2 {
+		t.e.unsupported("time.Time with unexpected layout")
+	}
+	return st.f[1].v.(*Term)
+}
+
+func timeIsZero(t *Thread, v Value) *Term {
+	st := v.(*Struct)
+	ts := t.e.ts
+	return ts.And(ts.Eq(st.f[0].v.(*Term), ts.BV(64, 0)), ts.Eq(st.f[1].v.(*Term), ts.BV(64, 0)))
+}
+
+func init() {
+	stubs["time.Now"] = func(t *Thread, fn *ssa.Function, args []Value, pos token.Pos) Value {
+		return t.e.mkTime(fn.Signature.Results().At(0).Type(), t.e.now)
+	}
+	stubs["time.Until"] = func(t *Thread, fn *ssa.Function, args []Value, pos token.Pos) Value {
+		return t.e.ts.BVBin("bvsub", timeNS(t, args[0], pos), t.e.now)
+	}
+	stubs["time.Since"] = func(t *Thread, fn *ssa.Function, args []Value, pos token.Pos) Value {
+		return t.e.ts.BVBin("bvsub", t.e.now, timeNS(t, args[0], pos))
+	}
+	stubs["(time.Time).Sub"] = func(t *Thread, fn *ssa.Function, args []Value, pos token.Pos) Value {
+		return t.e.ts.BVBin("bvsub", timeNS(t, args[0], pos), timeNS(t, args[1], pos))
+	}
+	stubs["(time.Time).Add"] = func(t *Thread, fn *ssa.Function, args []Value, pos token.Pos) Value {
+		st := t.e.copyVal(args[0]).(*Struct)
+		st.f[0].v = t.e.ts.BV(64, timeHasMonotonic)
+		st.f[1].v = t.e.ts.BVBin("bvadd", st.f[1].v.(*Term), args[1].(*Term))
+		return st
+	}
+	stubs["(time.Time).Before"] = func(t *Thread, fn *ssa.Function, args []Value, pos token.Pos) Value {
+		return t.e.ts.BVCmp("bvslt", timeNS(t, args[0], pos), timeNS(t, args[1], pos))
+	}
+	stubs["(time.Time).After"] = func(t *Thread, fn *ssa.Function, args []Value, pos token.Pos) Value {
+		return t.e.ts.BVCmp("bvslt", timeNS(t, args[1], pos), timeNS(t, args[0], pos))
+	}
+	stubs["(time.Time).Equal"] = func(t *Thread, fn *ssa.Function, args []Value, pos token.Pos) Value {
+		return t.e.ts.Eq(timeNS(t, args[0], pos), timeNS(t, args[1], pos))
+	}
+	stubs["(time.Time).IsZero"] = func(t *Thread, fn *ssa.Function, args []Value, pos token.Pos) Value {
+		return timeIsZero(t, args[0])
+	}
+	stubs["(time.Time).String"] = func(t *Thread, fn *ssa.Function, args []Value, pos token.Pos) Value {
+		return t.e.freshStr("timestr")
+	}
+	stubs["(time.Duration).String"] = func(t *Thread, fn *ssa.Function, args []Value, pos token.Pos) Value {
+		return t.e.freshStr("durstr")
+	}
 }
